@@ -337,6 +337,7 @@ type Job struct {
 	TypeInv      bool
 	NoUserInv    bool
 	NoContracts  bool
+	GlobalStoreGuard func(a *Act, st *State, g *ssa.Global) Term
 	Prop         string
 	LockMode     bool
 }
@@ -346,7 +347,7 @@ func (e *Engine) translate(job *Job) *Tr {
 	fn := job.Fn
 	tr := &Tr{eng: e, root: fn, comps: map[string]*Component{}, oblCount: map[string]int{}, panicMode: job.PanicMode, frameMode: job.Frame,
 		initHeap: map[string]*HeapV{}, usedStubs: map[string]bool{}, inlined: map[string]bool{}, havocked: map[string]bool{},
-		declared: map[string]bool{}, unfolded: map[string]bool{}, usedContracts: map[string]bool{}, usedAssumed: map[string]bool{}, atDone: map[string]bool{}, clauseFilter: job.ClauseFilter, isRoot: job.IsRoot, typeInvMode: job.TypeInv, lockMode: job.LockMode, prop: job.Prop, noUserInv: job.NoUserInv, noContracts: job.NoContracts}
+		declared: map[string]bool{}, unfolded: map[string]bool{}, usedContracts: map[string]bool{}, usedAssumed: map[string]bool{}, atDone: map[string]bool{}, clauseFilter: job.ClauseFilter, isRoot: job.IsRoot, typeInvMode: job.TypeInv, lockMode: job.LockMode, prop: job.Prop, noUserInv: job.NoUserInv, noContracts: job.NoContracts, globalStoreGuard: job.GlobalStoreGuard}
 	tr.inlineBudget = 200 - 2*len(fn.Blocks)
 	if tr.inlineBudget < 0 {
 		tr.inlineBudget = 0
